@@ -104,7 +104,7 @@ CLAIMED = {
     },
     "C09": {
         "category": "exploration",
-        "text": "Bounded-exhaustive metamorphic check: for every input of the slices (quick: thl on P4x3, ordered O3x2x2, unordered U3x2x2 and U3x1x3, one family on 3x(3..4) leaves; transformations include unnamed ancestors and "another input solved first on the same tree and LCA objects"; thorough: "
+        "text": "Bounded-exhaustive metamorphic check: for every input of the slices (quick: thl on P4x3, ordered O3x2x2, unordered U3x2x2 and U3x1x3, one family on 3x(3..4) leaves; transformations include unnamed ancestors and another input solved first on the same tree and LCA objects; thorough: "
                 "thl on all shapes with 5-6 object leaves x <=3 species leaves and P4x4, O3x3x3, O4x3x2, U3x3x3, U4x2x4), every coherent vector of the "
                 "menu and thl / ext_spfs / base_spfs / superdtl / base_uspfs, the ALL result is compared with the result on every transformation of a "
                 "finite menu (single-node child swaps, mirror, 3 node renamings, 2 family renamings, outgroup on either side, repetition on the same "
